@@ -25,7 +25,7 @@ pub fn dump<'tcx>(cx: &mut Ctx<'tcx>) -> String {
     for ldid in owners {
         let did = ldid.to_def_id();
         let kind = tcx.def_kind(did);
-        if !matches!(kind, DefKind::Fn | DefKind::AssocFn) {
+        if !matches!(kind, DefKind::Fn | DefKind::AssocFn | DefKind::Const { .. } | DefKind::Static { .. } | DefKind::AssocConst { .. }) {
             continue;
         }
         let body = tcx.hir_body_owned_by(ldid);
